@@ -111,8 +111,8 @@ fn one<S: Strategy<Value = Ev> + 'static>(e: S) -> BoxedStrategy<Vec<Ev>> {
 }
 
 fn scenario_v(rm: BoxedStrategy<Option<u16>>, ev: BoxedStrategy<Vec<Ev>>, len: std::ops::Range<usize>) -> BoxedStrategy<Scenario> {
-    (rm, vec(ev, len), id_offset(2), max_pkt())
-        .prop_map(|(receive_max, events, id_offset, max_packet_size)| Scenario { receive_max, max_packet_size, id_offset, events: flat(events) })
+    (rm, vec(ev, len), id_offset(2), max_pkt(), prologue_variant())
+        .prop_map(|(receive_max, events, id_offset, max_packet_size, prologue)| Scenario { receive_max, max_packet_size, id_offset, prologue, events: flat(events) })
         .boxed()
 }
 
@@ -155,8 +155,8 @@ fn target_any() -> BoxedStrategy<Target> {
 }
 
 fn scenario(rm: BoxedStrategy<Option<u16>>, ev: BoxedStrategy<Ev>, len: std::ops::Range<usize>) -> BoxedStrategy<Scenario> {
-    (rm, vec(ev, len), id_offset(2), max_pkt())
-        .prop_map(|(receive_max, events, id_offset, max_packet_size)| Scenario { receive_max, max_packet_size, id_offset, events })
+    (rm, vec(ev, len), id_offset(2), max_pkt(), prologue_variant())
+        .prop_map(|(receive_max, events, id_offset, max_packet_size, prologue)| Scenario { receive_max, max_packet_size, id_offset, prologue, events })
         .boxed()
 }
 
@@ -239,7 +239,7 @@ impl Property for C05 {
         ];
         Box::new(
             sequences(alphabet, tier.pick(5, 7), worker, workers)
-                .map(|events| Scenario { receive_max: None, max_packet_size: None, id_offset: 0, events }),
+                .map(|events| Scenario { receive_max: None, max_packet_size: None, id_offset: 0, prologue: 0, events }),
         )
     }
 
@@ -307,11 +307,12 @@ impl Property for C06 {
             1 => Just(vec![Ev::PollCtx]),
             1 => sel().prop_map(|sel| vec![Ev::PollOp { sel }]),
         ];
-        (vec(ev, 1..tier.pick(40, 120)), id_offset(2))
-            .prop_map(|(evs, id_offset)| Scenario {
+        (vec(ev, 1..tier.pick(40, 120)), id_offset(2), prologue_variant())
+            .prop_map(|(evs, id_offset, prologue)| Scenario {
                 receive_max: None,
                 max_packet_size: None,
                 id_offset,
+                prologue,
                 events: evs.into_iter().flatten().collect(),
             })
             .boxed()
@@ -417,7 +418,7 @@ impl Property for C07 {
             }
             events.push(Ev::In(Inbound::Publish { qos: 1, dup: false, retain: false, pid: 0, target: Target::Two(at(127), at(128)), payload_len: 1, props: 0 }));
             events.push(Ev::In(Inbound::Publish { qos: 0, dup: false, retain: false, pid: 0, target: Target::Two(at(n - 1), at(0)), payload_len: 1, props: 0 }));
-            v.push(Scenario { receive_max: None, max_packet_size: None, id_offset: 0, events });
+            v.push(Scenario { receive_max: None, max_packet_size: None, id_offset: 0, prologue: 0, events });
         }
         Box::new(v.into_iter())
     }
@@ -567,7 +568,7 @@ impl Property for C09 {
             .prop_map(|evs| {
                 let mut events = c09_prologue();
                 events.extend(evs);
-                Scenario { receive_max: None, max_packet_size: None, id_offset: 0, events }
+                Scenario { receive_max: None, max_packet_size: None, id_offset: 0, prologue: 0, events }
             })
             .boxed()
     }
@@ -591,7 +592,7 @@ impl Property for C09 {
         Box::new(sequences(alphabet, tier.pick(6, 8), worker, workers).map(|evs| {
             let mut events = c09_prologue();
             events.extend(evs);
-            Scenario { receive_max: None, max_packet_size: None, id_offset: 0, events }
+            Scenario { receive_max: None, max_packet_size: None, id_offset: 0, prologue: 0, events }
         }))
     }
 
@@ -673,12 +674,12 @@ impl Property for C10 {
             events.push(Ev::In(Inbound::Ack { sel: 30000, deco: ok }));
             events.push(Ev::Start { h: 0, kind: OpKind::Pub1, settle: false, solo: false });
             events.push(Ev::Start { h: 0, kind: OpKind::Pub2, settle: false, solo: false });
-            fill.push(Scenario { receive_max: if worker == 0 { None } else { Some(65535) }, max_packet_size: None, id_offset: 0, events });
+            fill.push(Scenario { receive_max: if worker == 0 { None } else { Some(65535) }, max_packet_size: None, id_offset: 0, prologue: 0, events });
         }
         Box::new(
             sequences(alphabet, depth, worker, workers)
-                .map(|events| Scenario { receive_max: Some(1), max_packet_size: None, id_offset: 0, events })
-                .chain(sequences(a2, depth, worker, workers).map(|events| Scenario { receive_max: Some(2), max_packet_size: None, id_offset: 0, events }))
+                .map(|events| Scenario { receive_max: Some(1), max_packet_size: None, id_offset: 0, prologue: 0, events })
+                .chain(sequences(a2, depth, worker, workers).map(|events| Scenario { receive_max: Some(2), max_packet_size: None, id_offset: 0, prologue: 0, events }))
                 .chain(fill),
         )
     }
@@ -793,8 +794,8 @@ impl Property for C14 {
     type Case = Scenario;
 
     fn strategy(tier: Tier) -> BoxedStrategy<Scenario> {
-        (rm_small(), mixed_history(tier), id_offset(0), max_pkt())
-            .prop_map(|(receive_max, events, id_offset, max_packet_size)| Scenario { receive_max, max_packet_size, id_offset, events })
+        (rm_small(), mixed_history(tier), id_offset(0), max_pkt(), prologue_variant())
+            .prop_map(|(receive_max, events, id_offset, max_packet_size, prologue)| Scenario { receive_max, max_packet_size, id_offset, prologue, events })
             .boxed()
     }
 
@@ -812,7 +813,7 @@ impl Property for C14 {
         for k in 0..=case.events.len() {
             let mut events: Vec<Ev> = case.events[..k].to_vec();
             events.push(Ev::DropCtx);
-            let scn = Scenario { receive_max: case.receive_max, max_packet_size: case.max_packet_size, id_offset: case.id_offset, events };
+            let scn = Scenario { receive_max: case.receive_max, max_packet_size: case.max_packet_size, id_offset: case.id_offset, prologue: case.prologue, events };
             let out = run(&scn, &cfg);
             if out.stats.phases_at_drop.len() >= 2 || out.stats.stream_buffered_at_drop {
                 o.nontrivial = true;
@@ -840,7 +841,7 @@ impl Property for C14 {
             }
             let mut events = case.events.clone();
             events.extend(tail);
-            let scn = Scenario { receive_max: case.receive_max, max_packet_size: case.max_packet_size, id_offset: case.id_offset, events };
+            let scn = Scenario { receive_max: case.receive_max, max_packet_size: case.max_packet_size, id_offset: case.id_offset, prologue: case.prologue, events };
             let cfg2 = SimCfg {
                 auto_settle: false,
                 // nothing more is accepted by the transport in the blocked variant: the
@@ -873,7 +874,7 @@ impl Property for C14 {
             events.push(Ev::Terminate(cause.clone()));
             events.push(Ev::Settle);
             events.push(Ev::DropCtx);
-            let scn = Scenario { receive_max: case.receive_max, max_packet_size: case.max_packet_size, id_offset: case.id_offset, events };
+            let scn = Scenario { receive_max: case.receive_max, max_packet_size: case.max_packet_size, id_offset: case.id_offset, prologue: case.prologue, events };
             let out = run(&scn, &cfg);
             o.class(format!("drop-after-run-returned-{}", cause_name(&cause)));
             if let Some(mut f) = failure_for(&out, &["C14/"]) {
@@ -898,7 +899,7 @@ impl Property for C14 {
             }
             events.push(Ev::Settle);
             events.push(Ev::DropCtx);
-            let scn = Scenario { receive_max: None, max_packet_size: None, id_offset: 0, events };
+            let scn = Scenario { receive_max: None, max_packet_size: None, id_offset: 0, prologue: 0, events };
             let out = run(&scn, &cfg);
             o.class("drop-with-long-stream-backlog");
             if let Some(mut f) = failure_for(&out, &["C14/", "C07/stream/message-lost"]) {
@@ -983,6 +984,7 @@ fn strip_cancellations(s: &Scenario) -> Scenario {
         receive_max: s.receive_max,
         max_packet_size: s.max_packet_size,
         id_offset: s.id_offset,
+        prologue: s.prologue,
         events: s
             .events
             .iter()
@@ -1012,11 +1014,12 @@ impl Property for C15 {
             2 => sel().prop_map(|sel| vec![Ev::DropStream { sel }, Ev::Settle]),
             1 => Just(vec![Ev::PollCtx]),
         ];
-        let s = (prop::sample::select(vec![Some(1u16), Some(2), Some(3), Some(5), None]), vec(ev, 1..tier.pick(40, 120)))
-            .prop_map(|(receive_max, evs)| Scenario {
+        let s = (prop::sample::select(vec![Some(1u16), Some(2), Some(3), Some(5), None]), vec(ev, 1..tier.pick(40, 120)), prologue_variant())
+            .prop_map(|(receive_max, evs, prologue)| Scenario {
                 receive_max,
                 max_packet_size: None,
                 id_offset: 0,
+                prologue,
                 events: evs.into_iter().flatten().collect(),
             })
             .boxed();
@@ -1048,7 +1051,7 @@ impl Property for C15 {
         ];
         Box::new(
             sequences(alphabet, tier.pick(5, 7), worker, workers)
-                .map(|events| Scenario { receive_max: Some(1), max_packet_size: None, id_offset: 0, events }),
+                .map(|events| Scenario { receive_max: Some(1), max_packet_size: None, id_offset: 0, prologue: 0, events }),
         )
     }
 
@@ -1400,7 +1403,7 @@ impl Property for C16 {
                     events.push(Ev::PollStream { sel: 0 });
                 }
             }
-            v.push(C16Case { scn: Scenario { receive_max: None, max_packet_size: None, id_offset: 0, events }, spurious: vec![(1000, 0), (40000, 2)] });
+            v.push(C16Case { scn: Scenario { receive_max: None, max_packet_size: None, id_offset: 0, prologue: 0, events }, spurious: vec![(1000, 0), (40000, 2)] });
         }
         Box::new(v.into_iter().enumerate().filter(move |(i, _)| i % workers == worker).map(|(_, c)| c))
     }
@@ -1419,6 +1422,7 @@ impl Property for C16 {
             receive_max: None,
             max_packet_size: case.scn.max_packet_size,
             id_offset: case.scn.id_offset,
+            prologue: case.scn.prologue,
             events: case.scn.events.iter().filter(|e| !matches!(e, Ev::DropStream { .. })).cloned().collect(),
         };
         let mut with_spurious = base.clone();
